@@ -13,7 +13,7 @@ inductive Slot where
   | err (f : Fault)
   | qv (q : QV.QVector) (abs : List Nat)
   | rsq (B : Nat) (r : RSQ.RSQVector) (abs : List Nat)
-  | bv (b : BV.BitVector) (abs : List Bool)
+  | bv (mu : Bool) (b : BV.BitVector) (abs : List Bool)
   | rsn (r : RSN.RSNarrow) (abs : List Bool)
   | rsw (r : RSW.RSWide) (abs : List Bool)
   | da (s0 : Bool) (d : DA.DArray) (abs : List Bool)
@@ -23,6 +23,7 @@ inductive Slot where
   deriving Inhabited
 
 structure St where
+  dbgAll : Bool := false
   cfg : Cfg := {}
   slots : Array Slot := Array.replicate 16 .empty
 
@@ -124,9 +125,59 @@ def parseLens (toks : List String) : List (Nat × Nat) × List String :=
 
 def wbytes (c : Cfg) : Nat := c.W / 8
 
-def handleMk (st : St) (k : Nat) (kind : String) (args : List String) : St × String :=
+def copySlot (st : St) (k : Nat) (args : List String) : St × String :=
+  match args with
+  | [src] => (match getSlot st (nat! src) with
+    | .empty => (st, "bad-op")
+    | s => (setSlot st k s, "ok"))
+  | _ => (st, "bad-op")
+
+def handleMk (st : St) (k : Nat) (kindFull : String) (args : List String) : St × String :=
   let c := st.cfg
+  let kind := (kindFull.splitOn ":").headD ""
+  let variant := ((kindFull.splitOn ":").drop 1).headD ""
+  if variant == "default" then
+    match kind with
+    | "qwt" => mkResult st k (pure (.qwt c {} []))
+    | "hqwt" => mkResult st k (pure (.hqwt c {} []))
+    | "wt" => mkResult st k (pure (.wt c false {} []))
+    | "hwt" => mkResult st k (pure (.wt c true {} []))
+    | _ => (st, "bad-op")
+  else
   match kind with
+  | "copy" | "serde" =>
+    (match copySlot st k args with
+     | (st', "ok") =>
+       (match getSlot st' k with
+        | .bv mu b abs =>
+          let mu' := if variant == "freeze" then false else if variant == "thaw" then true else mu
+          (setSlot st' k (.bv mu' b abs), "ok")
+        | _ => (st', "ok"))
+     | r => r)
+  | "qvb" => mkResult st k (pure (.qv {} []))
+  | "bvcap" =>
+    (match args with
+     | [n] => mkResult st k (do let b ← BV.withCapacity (nat! n); pure (.bv true b []))
+     | _ => (st, "bad-op"))
+  | "rsndefault" => mkResult st k (pure (.rsn {} []))
+  | "rswdefault" => mkResult st k (pure (.rsw {} []))
+  | "dadefault" =>
+    (match args with
+     | [s0] => mkResult st k (pure (.da (s0 == "1") (DA.new (s0 == "1") {}) []))
+     | _ => (st, "bad-op"))
+  | "dabits" =>
+    (match args with
+     | s0 :: len :: ps =>
+       let bits := bitsFrom (nat! len) (ps.map nat!)
+       mkResult st k (do let b ← BV.fromBools bits; pure (.da (s0 == "1") (DA.new (s0 == "1") b) bits))
+     | _ => (st, "bad-op"))
+  | "dapos" =>
+    (match args with
+     | s0 :: ps =>
+       let ps := ps.map nat!
+       let len := ps.foldl (fun m p => max m (p + 1)) 0
+       mkResult st k (do let b ← BV.fromPositions ps; pure (.da (s0 == "1") (DA.new (s0 == "1") b) (bitsFrom len ps)))
+     | _ => (st, "bad-op"))
   | "qv" =>
     let vals := args.map int!
     mkResult st k (do let q ← QV.fromIter vals; pure (.qv q (vals.map (fun v => (v % 4).toNat))))
@@ -144,33 +195,33 @@ def handleMk (st : St) (k : Nat) (kind : String) (args : List String) : St × St
     match args with
     | len :: ps =>
       let bits := bitsFrom (nat! len) (ps.map nat!)
-      mkResult st k (do let b ← BV.fromBools bits; pure (.bv b bits))
+      mkResult st k (do let b ← BV.fromBools bits; pure (.bv (variant == "mut") b bits))
     | _ => (st, "bad-op")
   | "bvpos" =>
     let ps := args.map nat!
     let len := ps.foldl (fun m p => max m (p + 1)) 0
-    mkResult st k (do let b ← BV.fromPositions ps; pure (.bv b (bitsFrom len ps)))
-  | "bvnew" => mkResult st k (pure (.bv {} []))
+    mkResult st k (do let b ← BV.fromPositions ps; pure (.bv (variant == "mut") b (bitsFrom len ps)))
+  | "bvnew" => mkResult st k (pure (.bv true {} []))
   | "bvzeros" =>
     match args with
-    | [n] => mkResult st k (do let b ← BV.withZeros (nat! n); pure (.bv b (List.replicate (nat! n) false)))
+    | [n] => mkResult st k (do let b ← BV.withZeros (nat! n); pure (.bv true b (List.replicate (nat! n) false)))
     | _ => (st, "bad-op")
   | "rsn" =>
     match args with
     | [src] => (match getSlot st (nat! src) with
-      | .bv b abs => mkResult st k (do let r ← RSN.new b; pure (.rsn r abs))
+      | .bv _ b abs => mkResult st k (do let r ← RSN.new b; pure (.rsn r abs))
       | _ => (st, "bad-op"))
     | _ => (st, "bad-op")
   | "rsw" =>
     match args with
     | [src] => (match getSlot st (nat! src) with
-      | .bv b abs => mkResult st k (do let r ← RSW.new b; pure (.rsw r abs))
+      | .bv _ b abs => mkResult st k (do let r ← RSW.new b; pure (.rsw r abs))
       | _ => (st, "bad-op"))
     | _ => (st, "bad-op")
   | "da" =>
     match args with
     | [s0, src] => (match getSlot st (nat! src) with
-      | .bv b abs => mkResult st k (pure (.da (s0 == "1") (DA.new (s0 == "1") b) abs))
+      | .bv _ b abs => mkResult st k (pure (.da (s0 == "1") (DA.new (s0 == "1") b) abs))
       | _ => (st, "bad-op"))
     | _ => (st, "bad-op")
   | "qwt" =>
@@ -194,10 +245,10 @@ def specMut (ok : Bool) : String := if ok then "U" else "F:assertdoc"
 
 def handleOp (st : St) (k : Nat) (op : String) (args : List String) : St × String :=
   match getSlot st k with
-  | .bv b abs =>
+  | .bv mu b abs =>
     let fin (r : M BV.BitVector) (abs' : List Bool) (pre : Bool) : St × String :=
       match r with
-      | .ok b' => (setSlot st k (.bv b' (if pre then abs' else abs)), both .unit (specMut pre))
+      | .ok b' => (setSlot st k (.bv mu b' (if pre then abs' else abs)), both .unit (specMut pre))
       | .error f => (st, both (.fault f) (specMut pre))
     match op, args with
     | "push", [x] => fin (BV.push b (x == "1")) (abs ++ [x == "1"]) true
@@ -228,7 +279,7 @@ def handleOp (st : St) (k : Nat) (op : String) (args : List String) : St × Stri
       (match QV.push q (QV.asU8 (int! x)) with
        | .ok q' => (setSlot st k (.qv q' (abs ++ [((int! x) % 4).toNat])), both .unit "U")
        | .error f => (st, both (.fault f) "U"))
-    | "extend", xs =>
+    | "extend", _ty :: xs =>
       (match QV.extend q (xs.map int!) with
        | .ok q' => (setSlot st k (.qv q' (abs ++ xs.map (fun x => ((int! x) % 4).toNat))), both .unit "U")
        | .error f => (st, both (.fault f) "U"))
@@ -248,7 +299,7 @@ def collectIter (next : Nat → M (Option Nat)) (fuel : Nat) : String :=
 def handleQ (st : St) (k : Nat) (q : String) (args : List String) : String :=
   let a (i : Nat) : Nat := nat! (args.getD i "0")
   match getSlot st k with
-  | .err f => "E:" ++ f.tag
+  | .err _ => "E"
   | .empty => "bad-slot"
   | .qv qv abs =>
     let dbg := st.cfg.dbg
@@ -257,7 +308,7 @@ def handleQ (st : St) (k : Nat) (q : String) (args : List String) : String :=
     | "is_empty" => both (.val (b2n (QV.isEmpty qv))) s!"V:{b2n abs.isEmpty}"
     | "get" => both (.ofOpt (QV.get dbg qv (a 0))) (specGet abs (a 0))
     | "get_unchecked" => both (.ofVal (QV.getUnchecked dbg qv (a 0))) s!"V:{abs.getD (a 0) 0}"
-    | "iter" => collectIter (fun i => QV.get dbg qv i) (abs.length + 2) ++ "|" ++ listS abs
+    | "iter" | "into_iter" => collectIter (fun i => QV.get dbg qv i) (abs.length + 2) ++ "|" ++ listS abs
     | _ => "bad-op"
   | .rsq B r abs =>
     let dbg := st.cfg.dbg
@@ -280,7 +331,7 @@ def handleQ (st : St) (k : Nat) (q : String) (args : List String) : String :=
     | "occs_smaller_unchecked" => both (.ofVal (RSQ.occsSmallerUnchecked dbg r (a 0))) s!"V:{Spec.occsSmaller id (a 0) abs}"
     | "iter" => collectIter (fun i => RSQ.get dbg r i) (abs.length + 2) ++ "|" ++ listS abs
     | _ => "bad-op"
-  | .bv b abs =>
+  | .bv mu b abs =>
     let n := abs.length
     let onesPos (bit : Bool) (from_ : Nat) : List Nat :=
       (List.range n).filter (fun i => i ≥ from_ ∧ abs.getD i false == bit)
@@ -293,7 +344,7 @@ def handleQ (st : St) (k : Nat) (q : String) (args : List String) : String :=
     | "count_zeros" => both (.ofVal (BV.countZeros b)) s!"V:{abs.count false}"
     | "get_bits" =>
       let i := a 0; let l := a 1
-      both (.ofOpt (BV.getBits b i l))
+      both (.ofOpt (if mu then BV.getBitsMut b i l else BV.getBits b i l))
         (if l ≥ 1 ∧ l ≤ 64 ∧ i + l ≤ n then optS (some (Spec.ofBits ((abs.drop i).take l))) else "N")
     | "get_bits_unchecked" =>
       both (.ofVal (BV.getBitsUnchecked b (a 0) (a 1))) s!"V:{Spec.ofBits ((abs.drop (a 0)).take (a 1))}"
@@ -301,7 +352,14 @@ def handleQ (st : St) (k : Nat) (q : String) (args : List String) : String :=
       let i := a 0
       both (.ofVal (BV.getWord b i))
         (if i < 8 * ((n + 511) / 512) then s!"V:{Spec.ofBits ((abs.drop (64 * i)).take 64)}" else "F:assertdoc")
-    | "iter" => collectIter (fun i => (BV.get b i).map (·.map b2n)) (n + 2) ++ "|" ++ listS (abs.map b2n)
+    | "iter" | "into_iter" => collectIter (fun i => (BV.get b i).map (·.map b2n)) (n + 2) ++ "|" ++ listS (abs.map b2n)
+    | "n_lines" => both (.val (BV.nLines b)) s!"V:{(n + 511) / 512}"
+    | "iterlen" | "iterlen_ref" =>
+      -- `len()` before the first and after each of `n + 2` calls of `next`
+      let lens := (List.range (n + 3)).map (fun j => Out.ofVal (BV.BitIter.len b { i := min j n }))
+      (if lens.all (fun o => match o with | .val _ => true | _ => false)
+       then listS (lens.map (fun o => match o with | .val v => v | _ => 0)) else "F:overflow")
+      ++ "|" ++ listS ((List.range (n + 3)).map (fun j => n - min j n))
     | "ones" => listS (BV.PosIter.collect true b (n + 1) BV.PosIter.new) ++ "|" ++ listS (onesPos true 0)
     | "zeros" => listS (BV.PosIter.collect false b (n + 1) BV.PosIter.new) ++ "|" ++ listS (onesPos false 0)
     | "ones_with_pos" => listS (BV.PosIter.collect true b (n + 1) (BV.PosIter.withPos true b (a 0))) ++ "|" ++ listS (onesPos true (a 0))
@@ -346,6 +404,14 @@ def handleQ (st : St) (k : Nat) (q : String) (args : List String) : String :=
     | "count_zeros" => both (.ofVal (DA.countZeros d)) s!"V:{abs.count false}"
     | "select1" => both (.ofOpt (DA.select1 d (a 0))) (optS (Spec.select true (a 0) abs))
     | "select0" => both (.ofOpt (DA.select0 s0 d (a 0))) (if s0 then optS (Spec.select false (a 0) abs) else "F:assertdoc")
+    | "select1_unchecked" => both (.ofVal (do let v ← DA.select1 d (a 0); unwrap v)) s!"V:{(Spec.select true (a 0) abs).getD 0}"
+    | "select0_unchecked" => both (.ofVal (do let v ← DA.select0 s0 d (a 0); unwrap v)) s!"V:{(Spec.select false (a 0) abs).getD 0}"
+    | "is_empty" => both (.val (b2n (DA.len d == 0))) s!"V:{b2n abs.isEmpty}"
+    | "iter" => collectIter (fun i => (DA.get d i).map (·.map b2n)) (n + 2) ++ "|" ++ listS (abs.map b2n)
+    | "ones" => listS (BV.PosIter.collect true d.bv (n + 1) BV.PosIter.new) ++ "|" ++ listS ((List.range n).filter (fun i => abs.getD i false))
+    | "zeros" => listS (BV.PosIter.collect false d.bv (n + 1) BV.PosIter.new) ++ "|" ++ listS ((List.range n).filter (fun i => !abs.getD i false))
+    | "ones_with_pos" => listS (BV.PosIter.collect true d.bv (n + 1) (BV.PosIter.withPos true d.bv (a 0))) ++ "|" ++ listS ((List.range n).filter (fun i => i ≥ a 0 ∧ abs.getD i false))
+    | "zeros_with_pos" => listS (BV.PosIter.collect false d.bv (n + 1) (BV.PosIter.withPos false d.bv (a 0))) ++ "|" ++ listS ((List.range n).filter (fun i => i ≥ a 0 ∧ !abs.getD i false))
     | _ => "bad-op"
   | .qwt c t abs =>
     match q with
@@ -362,6 +428,7 @@ def handleQ (st : St) (k : Nat) (q : String) (args : List String) : String :=
     | "rank_prefetch_unchecked" => both (.ofVal (QWTree.rankPrefetchUnchecked c t (a 0) (a 1))) s!"V:{Spec.rank (a 0) (a 1) abs}"
     | "select" => both (.ofOpt (QWTree.select c t (a 0) (a 1))) (specSelectU abs (a 0) (a 1))
     | "select_unchecked" => both (.ofVal (QWTree.selectUnchecked c t (a 0) (a 1))) s!"V:{(Spec.select (a 0) (a 1) abs).getD 0}"
+    | "iter" | "iter_ref" | "into_iter" => collectIter (fun i => QWTree.get c t i) (abs.length + 2) ++ "|" ++ listS abs
     | "iterhist" =>
       let ops := (args.getD 0 "").toList
       " ".intercalate (modelIterHist (QWTree.getUnchecked c t) t.n ops) ++ "|" ++ " ".intercalate (specIterHist abs ops)
@@ -379,6 +446,7 @@ def handleQ (st : St) (k : Nat) (q : String) (args : List String) : String :=
     | "rank_prefetch_unchecked" => both (.ofVal (Huff.rankPrefetchUnchecked c t (a 0) (a 1))) s!"V:{Spec.rank (a 0) (a 1) abs}"
     | "select" => both (.ofOpt (Huff.select c t (a 0) (a 1))) (specSelectH abs (a 0) (a 1))
     | "select_unchecked" => both (.ofVal (Huff.selectUnchecked c t (a 0) (a 1))) s!"V:{(Spec.select (a 0) (a 1) abs).getD 0}"
+    | "iter" | "iter_ref" | "into_iter" => collectIter (fun i => Huff.get c t i) (abs.length + 2) ++ "|" ++ listS abs
     | "iterhist" =>
       let ops := (args.getD 0 "").toList
       " ".intercalate (modelIterHist (Huff.getUnchecked c t) t.n ops) ++ "|" ++ " ".intercalate (specIterHist abs ops)
@@ -397,6 +465,7 @@ def handleQ (st : St) (k : Nat) (q : String) (args : List String) : String :=
     | "rank_unchecked" => both (.ofVal (BinWT.rankUnchecked c comp t (a 0) (a 1))) s!"V:{Spec.rank (a 0) (a 1) abs}"
     | "select" => both (.ofOpt (BinWT.select c comp t (a 0) (a 1))) (ss (a 0) (a 1))
     | "select_unchecked" => both (.ofVal (BinWT.selectUnchecked c comp t (a 0) (a 1))) s!"V:{(Spec.select (a 0) (a 1) abs).getD 0}"
+    | "iter" | "iter_ref" | "into_iter" => collectIter (fun i => BinWT.get c comp t i) (abs.length + 2) ++ "|" ++ listS abs
     | "iterhist" =>
       let ops := (args.getD 0 "").toList
       " ".intercalate (modelIterHist (BinWT.getUnchecked c comp t) t.n ops) ++ "|" ++ " ".intercalate (specIterHist abs ops)
@@ -406,7 +475,7 @@ def slotVal (st : St) (k : Nat) : Option Codec.Val :=
   match getSlot st k with
   | .qv q _ => some (Codec.qvVal q)
   | .rsq _ r _ => some (Codec.rsqVal r)
-  | .bv b _ => some (Codec.bvVal b)
+  | .bv _ b _ => some (Codec.bvVal b)
   | .rsn r _ => some (Codec.rsnVal r)
   | .rsw r _ => some (Codec.rswVal r)
   | .da _ d _ => some (Codec.daVal d)
@@ -419,7 +488,7 @@ def slotSpace (st : St) (k : Nat) : String :=
   match getSlot st k with
   | .qv q _ => Space.report (Space.qv q)
   | .rsq _ r _ => Space.report (Space.rsq r)
-  | .bv b _ => Space.report (Space.bv b)
+  | .bv _ b _ => Space.report (Space.bv b)
   | .rsn r _ => Space.report (Space.rsn r)
   | .rsw r _ => Space.report (Space.rsw r)
   | .da _ d _ => Space.report (Space.da d)
@@ -427,6 +496,22 @@ def slotSpace (st : St) (k : Nat) : String :=
   | .hqwt _ t _ => Space.report (Space.hqwt t)
   | .wt _ comp t _ => Space.report (Space.wt comp t)
   | _ => "bad-slot"
+
+/-- `==` of two values of the same type: model = structural equality of the states,
+    spec = equality of the abstract contents -/
+def slotEq (a b : Slot) : String :=
+  let r (m s : Bool) : String := s!"V:{b2n m}|V:{b2n s}"
+  match a, b with
+  | .qv x ax, .qv y ay => r (decide (x = y)) (decide (ax = ay))
+  | .rsq _ x ax, .rsq _ y ay => r (decide (x = y)) (decide (ax = ay))
+  | .bv _ x ax, .bv _ y ay => r (decide (x = y)) (decide (ax = ay))
+  | .rsn x ax, .rsn y ay => r (decide (x = y)) (decide (ax = ay))
+  | .rsw x ax, .rsw y ay => r (decide (x = y)) (decide (ax = ay))
+  | .da _ x ax, .da _ y ay => r (decide (x = y)) (decide (ax = ay))
+  | .qwt _ x ax, .qwt _ y ay => r (decide (x = y)) (decide (ax = ay))
+  | .hqwt _ x ax, .hqwt _ y ay => r (decide (x = y)) (decide (ax = ay))
+  | .wt _ _ x ax, .wt _ _ y ay => r (decide (x = y)) (decide (ax = ay))
+  | _, _ => "bad-op"
 
 /-- is the `lens` table near-complete Kraft (what a D-ary Huffman tree yields)? -/
 def lensOk (D : Nat) (lens : List (Nat × Nat)) : Bool :=
@@ -477,7 +562,11 @@ def handleU (fn : String) (args : List String) : String :=
 def step (st : St) (line : String) : St × String :=
   match line.trimAscii.toString.splitOn " " with
   | "cfg" :: b :: p :: w :: d :: _ =>
-    ({ st with cfg := { B := nat! b, pfs := p == "1", W := nat! w, dbg := d == "1" } }, "ok")
+    ({ st with cfg := { B := nat! b, pfs := p == "1", W := nat! w, dbg := (d == "1") || st.dbgAll } }, "ok")
+  | "case" :: _ => ({ st with slots := Array.replicate 16 .empty }, "ok")
+  | "tie" :: _ => (st, "ok")
+  | "threads" :: _ => (st, "ok")
+  | ["eq", a, b] => (st, slotEq (getSlot st (nat! a)) (getSlot st (nat! b)))
   | "mk" :: k :: kind :: args => handleMk st (nat! k) kind args
   | "op" :: k :: op :: args => handleOp st (nat! k) op args
   | "q" :: k :: q :: args => (st, handleQ st (nat! k) q args)
@@ -499,8 +588,9 @@ partial def loop (h : IO.FS.Stream) (out : IO.FS.Stream) (st : St) : IO Unit := 
   out.putStrLn o
   loop h out st'
 
-def main : IO Unit := do
+def main (args : List String) : IO Unit := do
   let stdin ← IO.getStdin
   let stdout ← IO.getStdout
-  loop stdin stdout {}
+  let dbg := args.contains "dbg=1"
+  loop stdin stdout { dbgAll := dbg }
   stdout.flush
